@@ -2663,6 +2663,7 @@ func (s *Server) serveConnCounted(c net.Conn, countConcurrency bool) error {
 		// Remember the method now: after a timeout the request stays with the
 		// old ctx, which the timed out handler may still be using.
 		isHead := ctx.IsHead()
+		isHTTP11 := ctx.Request.Header.IsHTTP11()
 
 		// If a client denies a request the handler should not be called
 		if continueReadingRequest {
@@ -2691,6 +2692,8 @@ func (s *Server) serveConnCounted(c net.Conn, countConcurrency bool) error {
 			if isHead {
 				ctx.Response.SkipBody = true
 			}
+		} else {
+			isHTTP11 = ctx.Request.Header.IsHTTP11()
 		}
 
 		if ctx.IsHead() {
@@ -2721,7 +2724,7 @@ func (s *Server) serveConnCounted(c net.Conn, countConcurrency bool) error {
 			(s.CloseOnShutdown && s.stop.Load() == 1)
 		if connectionClose {
 			ctx.Response.Header.SetConnectionClose()
-		} else if !ctx.Request.Header.IsHTTP11() {
+		} else if !isHTTP11 {
 			// Set 'Connection: keep-alive' response header for HTTP/1.0 request.
 			// There is no need in setting this header for http/1.1, since in http/1.1
 			// connections are keep-alive by default.
